@@ -111,7 +111,7 @@ func alphabet() []request {
 		dim, p, r uint32
 		space     int32
 	}
-	for _, x := range []cr{{2, 1, 1, 0}, {0, 1, 1, 0}, {2, 0, 1, 0}, {2, 1, 0, 0}, {2, 1, 1, 7}, {2, 1 << 20, 1, 0}, {2, 2, 2, 2}} {
+	for _, x := range []cr{{2, 1, 1, 0}, {0, 1, 1, 0}, {2, 0, 1, 0}, {2, 1, 0, 0}, {2, 1, 1, 7}, {2, 1 << 20, 1, 0}, {2, 2, 2, 2}, {2, 1, 1, -1}, {2, 1, 1, math.MinInt32}, {2, 1, 1, 3}} {
 		x := x
 		add(fmt.Sprintf("Create(dim=%d,P=%d,R=%d,space=%d)", x.dim, x.p, x.r, x.space), func(n *fakes.Node, c *ctxT) (interface{}, error) {
 			d, err := n.Datasets.Create(bg, &pb.Dataset{Dimension: x.dim, PartitionCount: x.p, ReplicationFactor: x.r, Space: pb.Space(x.space)})
@@ -228,6 +228,14 @@ func alphabet() []request {
 			return n.Data.PartitionBatchRemove(bg, req)
 		})
 	}
+	for _, lvl := range []int32{-1, -2, math.MinInt32, 64, math.MaxInt32} {
+		lvl := lvl
+		// the level of an item is drawn by the proposing node; on the direct partition RPC it is whatever the client sends
+		add(fmt.Sprintf("PartitionBatchInsert(D,existing partition,[two items, level=%d])", lvl), func(n *fakes.Node, c *ctxT) (interface{}, error) {
+			return n.Data.PartitionBatchInsert(bg, &pb.PartitionBatchRequest{DatasetId: c.D, PartitionId: c.P, Items: []*pb.BatchItem{
+				{Id: world.ID(0x77, 0x78).Bytes(), Value: []float32{1, 2}, Level: lvl}, {Id: world.ID(0x79, 0x7a).Bytes(), Value: []float32{2, 2}, Level: lvl}}})
+		})
+	}
 	for _, mk := range []string{"kv", "key-256", "key-86-cjk-chars", "value-65536", "65536-keys"} {
 		mk := mk
 		add("Insert(D,new id,metadata "+mk+")", func(n *fakes.Node, c *ctxT) (interface{}, error) {
@@ -267,7 +275,7 @@ func alphabet() []request {
 type caseT struct {
 	Prefix bool     `json:"after_prefix"`
 	Cosine bool     `json:"cosine_prefix,omitempty"` // the prefix dataset uses the cosine metric
-	Seq    []int    `json:"requests"` // indices into the alphabet
+	Seq    []int    `json:"requests"`                // indices into the alphabet
 	Names  []string `json:"names"`
 }
 
@@ -389,6 +397,33 @@ func probe(w *sim.Servers, rs []request, c caseT, cx *ctxT, call func(string, fu
 		return "probe-never-returns", "List(withSize) after the restart is blocked: " + strings.Join(w.S.Blocked(), "; ")
 	}
 	_ = err
+	if cx.L != nil {
+		// a dataset the sequence itself created (the request was accepted): ordinary use of it - two items, a search, a
+		// third item - may fail, but must neither crash nor wedge the node
+		for i, rq := range []func() (interface{}, error){
+			func() (interface{}, error) {
+				return node().Data.Insert(context.Background(), &pb.InsertRequest{DatasetId: cx.L, Id: world.ID(0xe1, 0xe2).Bytes(), Value: []float32{1, 2}})
+			},
+			func() (interface{}, error) {
+				return node().Data.Insert(context.Background(), &pb.InsertRequest{DatasetId: cx.L, Id: world.ID(0xe3, 0xe4).Bytes(), Value: []float32{2, 1}})
+			},
+			func() (interface{}, error) {
+				st := &fakes.ItemServerStream{Ctx: context.Background()}
+				return nil, node().Search.Search(&pb.SearchRequest{DatasetId: cx.L, Query: []float32{1, 1}, K: 2}, st)
+			},
+			func() (interface{}, error) {
+				return node().Data.Insert(context.Background(), &pb.InsertRequest{DatasetId: cx.L, Id: world.ID(0xe5, 0xe6).Bytes(), Value: []float32{3, 3}})
+			},
+		} {
+			done, _ := call(fmt.Sprintf("probe-created-%d", i), rq)
+			if len(w.Violations) > 0 {
+				return "probe-created-dataset:" + w.Violations[0].Key, fmt.Sprintf("ordinary request %d on the dataset the sequence created: %s", i+1, w.Violations[0].Desc)
+			}
+			if !done {
+				return "probe-created-dataset-never-returns", fmt.Sprintf("ordinary request %d on the dataset the sequence created is blocked: %s", i+1, strings.Join(w.S.Blocked(), "; "))
+			}
+		}
+	}
 	if c.Prefix {
 		// the prefix dataset still works unless the sequence deleted it
 		deleted := false
@@ -481,7 +516,7 @@ func main() {
 		}
 		k, d := runCase(rs, f.Replay)
 		if k != "" {
-			fmt.Printf("VIOLATION property=C12 replay=%s\n  %s: %s\n", os.Args[2], k, d)
+			fmt.Printf("VIOLATION property=%s replay=%s\n  %s: %s\n", ev.As("C12"), os.Args[2], k, d)
 			os.Exit(1)
 		}
 		fmt.Println("replay: property held")
